@@ -1,5 +1,6 @@
 (* C09 — the debugger is transparent to the program. *)
 From Lace Require Import Word Machine Isa Vm Asm Dbg DbgProofs.
+From Lace Require Examples.
 From Lace Require DebugText DebugTextProofs DbgStream DbgStreamProofs.
 Open Scope N_scope.
 
@@ -57,3 +58,12 @@ Theorem C09_one_stream : forall env fuel script d st t e c, s_inp st = nil ->
   DbgStream.ssession env fuel script d st t e c = Some (session env fuel script d st t e c).
 Proof. exact DbgStreamProofs.ssession_no_input. Qed.
 Print Assumptions C09_one_stream.
+
+(** Non-vacuity: a read-only script (step, registers, print, break add, continue, continue) on a
+    concrete program: the hypotheses of C09_transparent hold and the session ends like the plain
+    run, with R0 = 3, after 4 instructions and 7 commands read. *)
+Example C09_nonvacuous :
+  Forall readonly_cmd Examples.ex_script /\
+  let r := session Examples.ex_env 50 Examples.ex_script (Examples.ex_dbg nil) Examples.ex_state 0 0 0 in
+  sr_kind r = 0 /\ sr_kind r <> 4 /\ R (sr_state r) 0 = 3 /\ sr_execs r = 4 /\ sr_cmds r = 7.
+Proof. split; [exact Examples.ex_script_readonly|exact Examples.ex_session]. Qed.
